@@ -1131,7 +1131,9 @@ def c20(prop, tier, seed, work):
         notes.append("Cache %d keys, Age %d, Count %d, FailKeys %s: %d distinct states, %d transitions, %.0fs" % (nk, age, count, failk, res["distinct"], res["states"], res["wall"]))
     # (2) behaviours of the model replayed on the real cache under the virtual clock
     progs = []
-    gens = [(4, 20, 2, "{k3}"), (4, 20, 3, "{}"), (3, 20, 1, "{}"), (4, 20, 1, "{k2}"), (4, 0, 2, "{}"), (4, 20, 0, "{k1}"), (5, 30, 4, "{k5}")]
+    gens = [(4, 20, 2, "{k3}"), (4, 20, 3, "{}"), (3, 20, 1, "{}"), (4, 20, 1, "{k2}"), (4, 0, 2, "{}"), (4, 20, 0, "{k1}"), (5, 30, 4, "{k5}"),
+            # an age of more than ten steps: two uses of an entry less than a tenth of the age apart
+            (2, 120, 0, "{}"), (3, 115, 2, "{}")]
     num, depth = (40, 40) if quick else (600, 70)
     for gi, (nk, age, count, failk) in enumerate(gens):
         cfg = CACHE_CFG % dict(spec="GSpec", keys=mset("k", nk), age=age, count=count, maxt=100000, fail=failk, extra="CONSTANT Depth = %d\nINVARIANT Emit" % depth)
